@@ -166,7 +166,16 @@ impl PageLockShard {
             crate::verif_hooks::sched_point(204);
             let mut map = self.locks.lock();
             if entry.ref_count.load(Ordering::Acquire) == 0 {
-                map.remove(&page_id);
+                // Between release() and taking the shard mutex another thread may have
+                // revived, released and removed this entry, and a third acquisition may
+                // have inserted a fresh entry for the same page. Remove the mapping only
+                // if it still points at *this* entry; never a newer, live one.
+                let is_current = map
+                    .get(&page_id)
+                    .is_some_and(|cur| std::ptr::eq(Arc::as_ptr(cur), entry));
+                if is_current {
+                    map.remove(&page_id);
+                }
             }
         }
     }
